@@ -137,6 +137,8 @@ class UpdateVcsgLocationAnswer(UpdateVcsgLocation):
         setattr(self, "failed_avp", [])
         setattr(self, "proxy_info", [])
         setattr(self, "route_record", [])
+        setattr(self, "supported_features", [])
+        setattr(self, "vplmn_csg_subscription_data", [])
 
         assign_attr_from_defs(self, self._avps)
         self._avps = []
